@@ -4,6 +4,7 @@ import (
 	"bytes"
 	"context"
 	"fmt"
+	"io"
 
 	"github.com/go-netty/go-netty/internal/vrt"
 )
@@ -85,4 +86,53 @@ func ZZ_C11_Race(q, until, entry, closeArg int) {
 	})
 	vrt.Quiesce()
 	vrt.Reach("c11-race-done")
+}
+
+// zzTwoChunks is a reader delivering two one-byte chunks; it records whether Close had returned when each chunk
+// was requested (the chunk's low-level write begins after that).
+type zzTwoChunks struct {
+	i            int
+	closed       *bool
+	afterClose   [2]bool
+}
+
+func (r *zzTwoChunks) Read(p []byte) (int, error) {
+	if r.i >= 2 {
+		return 0, io.EOF
+	}
+	vrt.Yield()
+	r.afterClose[r.i] = *r.closed
+	p[0] = byte(0xC1 + r.i)
+	r.i++
+	return 1, nil
+}
+
+// ZZ_C11_ReadFromRace: a multi-chunk ReadFrom racing with Close: a chunk whose write began after Close had returned
+// must not reach the transport, and ReadFrom must then report an error.
+func ZZ_C11_ReadFromRace(q, until, closeArg int) {
+	tr := newZZTransport()
+	pl := NewPipeline()
+	ch := zzNewChannel(pl, tr, q, until != 0)
+	closeReturned := false
+	vrt.Facet("closearg", closeArg)
+	vrt.Go("closer", func() {
+		ch.Close(zzCloseArg(closeArg))
+		closeReturned = true
+	})
+	rd := &zzTwoChunks{closed: &closeReturned}
+	var n int64
+	var err error
+	vrt.Go("writer", func() { n, err = ch.ReadFrom(rd) })
+	vrt.Quiesce()
+	for i := 0; i < 2; i++ {
+		if rd.afterClose[i] {
+			vrt.Reach("c11-chunk-began-after-close")
+			vrt.Assert(err != nil, "c11-write-after-close-fails")
+			for _, b := range tr.log {
+				vrt.Assert(b != byte(0xC1+i), "c11-nothing-transmitted-after-close")
+			}
+		}
+	}
+	_ = n
+	vrt.Reach("c11-readfrom-race-done")
 }
